@@ -4,6 +4,8 @@
 #include <xenium/nikolaev_bounded_queue.hpp>
 #include <xenium/vyukov_bounded_queue.hpp>
 
+#include <optional>
+
 using namespace xmc;
 
 namespace {
@@ -57,6 +59,31 @@ struct VyukovAdapter {
   static bool push(Q& q, int op, int v) { return op == PUSH_S ? q.try_push_strong(v) : q.try_push_weak(v); }
   static bool pop(Q& q, int op, int& v) { return op == POP_S ? q.try_pop_strong(v) : q.try_pop_weak(v); }
 };
+// the policy-dispatched entry points try_push / try_pop / pop and the std::optional returning pop_strong / pop_weak:
+// with DefaultToWeak = false the unsuffixed operations must behave like the strong ones, with true like the weak ones
+template <bool DefaultToWeak>
+struct VyukovApiAdapter {
+  using Q = xenium::vyukov_bounded_queue<int, xenium::policy::default_to_weak<DefaultToWeak>>;
+  static constexpr bool slack = false;
+  static constexpr int nops = 4;
+  static Q* make(int cap) { return new Q(cap); }
+  static int capacity(Q&, int cap) { return cap; }
+  static bool lockfree(int op) { return op == PUSH_W || op == POP_W; }
+  static bool push(Q& q, int op, int v) {
+    if ((op == PUSH_W) == DefaultToWeak) return q.try_push(v);
+    return op == PUSH_S ? q.try_push_strong(v) : q.try_push_weak(v);
+  }
+  static bool pop(Q& q, int op, int& v) {
+    std::optional<int> r;
+    if ((op == POP_W) == DefaultToWeak) {
+      if (v & 1) return q.try_pop(v);
+      r = q.pop();
+    } else
+      r = op == POP_S ? q.pop_strong() : q.pop_weak();
+    if (r) v = *r;
+    return r.has_value();
+  }
+};
 template <unsigned Retries>
 struct NikolaevAdapter {
   using Q = xenium::nikolaev_bounded_queue<int, xenium::policy::pop_retries<Retries>>;
@@ -66,7 +93,12 @@ struct NikolaevAdapter {
   static int capacity(Q& q, int) { return (int)q.capacity(); }
   static bool lockfree(int) { return true; }
   static bool push(Q& q, int, int v) { return q.try_push(v); }
-  static bool pop(Q& q, int, int& v) { return q.try_pop(v); }
+  static bool pop(Q& q, int, int& v) {
+    if ((v & 1) == 0) return q.try_pop(v);
+    auto r = q.pop(); // the std::optional returning entry point
+    if (r) v = *r;
+    return r.has_value();
+  }
 };
 
 template <class A>
@@ -103,7 +135,7 @@ void bounded_test() {
       bool ok = A::push(*q, op, val);
       op_end(ok);
     } else {
-      int v = 0;
+      int v = val; // in: sequence number of the operation (its parity selects the entry point); out: popped value
       op_begin(op, 0, 0, A::lockfree(op));
       bool ok = A::pop(*q, op, v);
       op_end(ok, ok ? v : 0);
@@ -113,7 +145,7 @@ void bounded_test() {
   // concurrency, but the operations are recorded and checked like all others
   for (int i = 0; i < wrap; i++) {
     apply(PUSH_S, 30);
-    apply(POP_S, 0);
+    apply(POP_S, i);
   }
   for (int i = 0; i < prefill; i++) apply(PUSH_S, next++);
   for (int t = 0; t < NT; t++) {
@@ -133,7 +165,7 @@ void bounded_test() {
   }
   for (int i = 0; i <= rcap + 1; i++) { // final drain with strong pops
     int before = history_size();
-    apply(POP_S, 0);
+    apply(POP_S, i);
     if (history_at(before).r0 == 0) break;
   }
   delete q;
@@ -144,6 +176,8 @@ void bounded_test() {
 }
 
 XMC_TEST_FN("vyukov", (&bounded_test<VyukovAdapter>), "vyukov_bounded_queue, strong + weak operations");
+XMC_TEST_FN("vyukov_api", (&bounded_test<VyukovApiAdapter<false>>), "vyukov_bounded_queue, try_push / try_pop / pop (default: strong), pop_weak");
+XMC_TEST_FN("vyukov_dw", (&bounded_test<VyukovApiAdapter<true>>), "vyukov_bounded_queue<default_to_weak<true>>, try_push / try_pop / pop (weak), pop_strong");
 XMC_TEST_FN("nikolaev", (&bounded_test<NikolaevAdapter<1>>), "nikolaev_bounded_queue, pop_retries<1>");
 XMC_TEST_FN("nikolaev_p0", (&bounded_test<NikolaevAdapter<0>>), "nikolaev_bounded_queue, pop_retries<0>");
 } // namespace
